@@ -41,7 +41,7 @@ def gen_cases(tier: str, seed: int) -> list[dict]:
     return [{"seed": f"{seed}:C18:{i}", "part": ["elasticities", "response", "mc"][i % 3]} for i in range(n)]
 
 
-def gen_net(rng, ia_start: bool = False) -> dict:  # noqa: ANN001
+def gen_net(rng, ia_start: bool = False, time_factor: bool = False) -> dict:  # noqa: ANN001
     a = rng.choice([0.5, 1.0, 2.0])
     b = rng.choice([0.5, 1.0, 2.0])
     inhib = rng.random() < 0.4
@@ -73,7 +73,10 @@ def gen_net(rng, ia_start: bool = False) -> dict:  # noqa: ANN001
         comps.append({"kind": "reaction", "name": "v1", "fn": fl.ref(fl.pl2), "args": ["k1d" if derived_k1 else "k1", "x", "a", "y", "ni"], "stoich": {"x": -1, "y": 1}})
     else:
         comps.append({"kind": "reaction", "name": "v1", "fn": fl.ref(fl.pl1), "args": ["k1d" if derived_k1 else "k1", "x", "a"], "stoich": {"x": -1, "y": 1}})
-    comps.append({"kind": "reaction", "name": "v2", "fn": fl.ref(fl.pl1), "args": ["k2", "y", "b"], "stoich": {"y": -1}})
+    if time_factor:
+        comps.append({"kind": "reaction", "name": "v2", "fn": fl.ref(fl.pl1t), "args": ["k2", "y", "b", "time"], "stoich": {"y": -1}})
+    else:
+        comps.append({"kind": "reaction", "name": "v2", "fn": fl.ref(fl.pl1), "args": ["k2", "y", "b"], "stoich": {"y": -1}})
     return {"spec": {"components": comps}, "params": p, "y0": y0, "inhib": inhib}
 
 
@@ -82,17 +85,21 @@ def eff(p: dict) -> dict:
     scanned, chain = d ln(k1 effective) / d ln(k1 scanned) (1 unless the constant is the derived parameter 0.7 k1 + 0.3)."""
     if "raw" in p:
         return p
-    raw = {k: v for k, v in p.items() if k != "dk1"}
+    raw = {k: v for k, v in p.items() if k not in ("dk1", "tfac")}
+    if "tfac" in p:
+        raw_t = {"tfac": p["tfac"]}
+    else:
+        raw_t = {}
     if p.get("dk1"):
         k1e = fl.lin1(p["k1"])
-        return {**raw, "k1": k1e, "raw": raw, "chain": 0.7 * p["k1"] / k1e}
-    return {**raw, "raw": raw, "chain": 1.0}
+        return {**raw, **raw_t, "k1": k1e, "raw": raw, "chain": 0.7 * p["k1"] / k1e}
+    return {**raw, **raw_t, "raw": raw, "chain": 1.0}
 
 
 def fluxes(p: dict, st: dict, inhib: bool) -> dict:
     p = eff(p)
     v1 = p["k1"] * st["x"] ** p["a"] * (st["y"] ** p["ni"] if inhib else 1.0)
-    return {"vin": p["kin"], "v1": v1, "v2": p["k2"] * st["y"] ** p["b"]}
+    return {"vin": p["kin"], "v1": v1, "v2": p["k2"] * st["y"] ** p["b"] * p.get("tfac", 1.0)}
 
 
 def var_elast(p: dict, st: dict, inhib: bool, normalized: bool) -> dict:
@@ -195,7 +202,8 @@ def run_case(case: dict) -> dict:
     rng = core.rng_for(case["seed"])
     moiety = case["part"] == "response" and rng.random() < 0.4
     ia_start = case["part"] == "elasticities" and rng.random() < 0.4
-    net = gen_moiety(rng) if moiety else gen_net(rng, ia_start)
+    time_factor = case["part"] == "elasticities" and rng.random() < 0.4
+    net = gen_moiety(rng) if moiety else gen_net(rng, ia_start, time_factor)
     model = rm.build(net["spec"])
     p, inhib = net["params"], net.get("inhib", False)
     viols: list[dict] = []
@@ -223,9 +231,15 @@ def run_case(case: dict) -> dict:
                     st = {k: v * unit for k, v in st.items()}
                     counters[f"elasticities at a state of magnitude {unit:g}"] = counters.get(f"elasticities at a state of magnitude {unit:g}", 0) + 1
                 sub = rng.random() < 0.4
-                ve = mca.variable_elasticities(model, variables=st if given else None, normalized=normalized, to_scan=["y"] if sub else None)
+                tkw, p_t = {}, p
+                if time_factor:
+                    # the rate of v2 drifts in time: elasticities asked for at a later time are taken there
+                    t_el = rng.choice([1.0, 2.5, 4.0])
+                    tkw, p_t = {"time": t_el}, {**p, "tfac": 1.0 + 0.5 * t_el}
+                    counters["elasticities_at_a_later_time_of_a_time_dependent_rate"] = counters.get("elasticities_at_a_later_time_of_a_time_dependent_rate", 0) + 1
+                ve = mca.variable_elasticities(model, variables=st if given else None, normalized=normalized, to_scan=["y"] if sub else None, **tkw)
                 untouched("variable_elasticities")
-                exp = var_elast(p, st, inhib, normalized)
+                exp = var_elast(p_t, st, inhib, normalized)
                 if sub:
                     exp = {"y": exp["y"]}
                     if list(ve.columns) != ["y"]:
@@ -233,12 +247,12 @@ def run_case(case: dict) -> dict:
                 viols += cmp_table(ve, exp, 1e-6, "variable elasticity differs from the analytic partial derivative / kinetic order", {"normalized": normalized, "state": st, **ctx})
                 allp = ["kin", "k1", "k2", "a", "b"] + (["ni"] if inhib else [])
                 scan = rng.sample(allp, rng.randint(1, len(allp))) if sub else allp
-                pe = mca.parameter_elasticities(model, variables=st if given else None, normalized=normalized, to_scan=scan)
+                pe = mca.parameter_elasticities(model, variables=st if given else None, normalized=normalized, to_scan=scan, **tkw)
                 untouched("parameter_elasticities")
-                exp = {q: v for q, v in par_elast(p, st, inhib, normalized).items() if q in scan}
+                exp = {q: v for q, v in par_elast(p_t, st, inhib, normalized).items() if q in scan}
                 # a central difference over a relative displacement h of a parameter with (scaled) elasticity e is off by a
                 # relative (h e)^2 / 6: for an exponent at a concentration of 1e-6, e = n ln(1e-6) = -28 and that is 1e-6
-                emax = max(abs(x) for q, v in par_elast(p, st, inhib, True).items() if q in scan for x in v.values())
+                emax = max(abs(x) for q, v in par_elast(p_t, st, inhib, True).items() if q in scan for x in v.values())
                 viols += cmp_table(pe, exp, 1e-6 + (1e-4 * emax) ** 2, "parameter elasticity differs from the analytic partial derivative", {"normalized": normalized, "state": st, **ctx})
                 counters["elasticity_tables"] = counters.get("elasticity_tables", 0) + 2
     elif case["part"] == "response":
